@@ -19,7 +19,7 @@ from fiddle._src.experimental import serialization
 from fiddle._src.experimental import transform
 from fiddle._src.experimental import visualize
 
-from harness import common, l2, c02
+from harness import common, l2, c02, c06
 from harness.common import Failure, Result, Stream
 
 COQ_TARGETS = ["theories/C20Check.vo", "theories/AnchorsBuild.vo"]
@@ -396,6 +396,8 @@ def run(tier: str, seed: int) -> Result:
                          with_tags=rng.random() < 0.3)
     if not isinstance(root, config_lib.Buildable):
       root = fdl.Config(l2.fd, x=root)
+    if not c06.no_int_floats(root):
+      continue    # 3.0 == 3 in Python; the model's leaf equality does not relate ints and floats
     name = rng.choice(names)
     if name == "materialize_tags":
       add_tagged_values(rng, root)
